@@ -43,6 +43,8 @@ def run(run):
     run.require('vector.ops', 500)
     if run.shard == 0:
         run.require('alias.roundtrips', 20)
+    if run.shard == 0:
+        run.require('enum.first_use_preemption_points', 20)
 
 
 # --------------------------------------------------------------------------
@@ -181,7 +183,18 @@ def maps(run, thorough):
                 del pkt.icons[:]
                 pkt.icons.extend(new_icons)
                 run.count('map.icon_list_reused_in_place')
-            last_icons = pkt.icons
+            if mid in real.maps_by_id and rng.random() < 0.15:
+                # a relay re-sends the map's current icons with a new patch:
+                # the packet's icon list *is* the tracked map's list, or a
+                # generator over it
+                cur = real.maps_by_id[mid].icons
+                model_now = list(cur)
+                pkt.icons = cur if rng.random() < 0.5 else (i for i in cur)
+                run.count('map.packet_built_from_tracked_icons')
+                last_icons = None
+            else:
+                model_now = None
+                last_icons = pkt.icons
             cls = rng.randrange(6)
             if cls == 0:
                 w = hgt = 0
@@ -212,8 +225,13 @@ def maps(run, thorough):
             want = {'scale': pkt.scale, 'track': pkt.is_tracking_position,
                     'locked': pkt.is_locked, 'w': w, 'h': hgt,
                     'offset': pkt.offset, 'pixels': pkt.pixels,
-                    'icons': list(pkt.icons)}
-            if through_wire:
+                    'icons': list(pkt.icons) if model_now is None
+                    else model_now}
+            if model_now is not None and not isinstance(pkt.icons, list):
+                through_wire_now = False
+            else:
+                through_wire_now = through_wire
+            if through_wire_now and model_now is None:
                 buf = PacketBuffer()
                 try:
                     pkt.write_fields(buf)
@@ -458,6 +476,99 @@ def enums(run, thorough):
                                      else None, 'others_first': b_int[j]
                                      if j is not None else None,
                                      'odd_a': a_odd[:4], 'odd_b': b_odd[:4]})
+    # the very first question to a class, pre-empted at every statement
+    # (whatever is prepared per class on first use must never be seen half
+    # ready): thread A asks a fresh class its first question and is stopped at
+    # its k-th statement inside the enum module, for every k in turn; while it
+    # stands there thread B asks the same class a series of questions; then A
+    # goes on.  All answers must be the sequential ones.
+    if run.shard == 0:
+        import os as _os
+        import sys
+        import threading
+        from .. import core as _core
+        mon = sys.monitoring
+        TOOL = 4
+        enum_file = _os.path.join(_core.REPO, 'minecraft', 'networking',
+                                  'types', 'enum.py')
+        wrong = []
+        state = {'a': None, 'n': 0, 'stop_at': 0, 'stopped': None,
+                 'go': None}
+
+        def on_line(code, lineno):
+            if code.co_filename != enum_file:
+                return mon.DISABLE
+            if threading.get_ident() == state['a']:
+                state['n'] += 1
+                if state['n'] == state['stop_at']:
+                    state['stopped'].set()
+                    state['go'].wait(10.0)
+            return None
+        mon.use_tool_id(TOOL, 'vf-enum-first-use')
+        mon.register_callback(TOOL, mon.events.LINE, on_line)
+        mon.set_events(TOOL, mon.events.LINE)
+        try:
+            for g, cls in enumerate(gen[:30 if thorough else 6]):
+                flags = members_of(cls)
+                model = type('Model%d' % g, (T.BitFieldEnum,), dict(flags))
+                vals = [v for v in range(1, 256, 11)] + [0, 255]
+                want = {v: model.name_from_value(v) for v in vals}
+                k = 0
+                while k < 400:
+                    k += 1
+                    fresh = type('Fresh%d_%d' % (g, k), (T.BitFieldEnum,),
+                                 dict(flags))
+                    state.update(n=0, stop_at=k, stopped=threading.Event(),
+                                 go=threading.Event())
+                    got_a = []
+
+                    def thread_a():
+                        state['a'] = threading.get_ident()
+                        try:
+                            got_a.append(fresh.name_from_value(vals[0]))
+                        except Exception as e:
+                            got_a.append('raised:' + repr(e))
+                        state['a'] = None
+                    ta = threading.Thread(target=thread_a)
+                    ta.start()
+                    reached = False
+                    for _ in range(2000):
+                        reached = state['stopped'].wait(0.005)
+                        if reached or not ta.is_alive():
+                            break
+                    reached = reached or state['stopped'].is_set()
+                    got_b = {}
+                    if reached:
+                        for v in vals:
+                            try:
+                                got_b[v] = fresh.name_from_value(v)
+                            except Exception as e:
+                                got_b[v] = 'raised:' + repr(e)
+                    state['go'].set()
+                    ta.join(10.0)
+                    run.count('enum.first_use_preemption_points')
+                    bad = [v for v in got_b if got_b[v] != want[v]]
+                    if bad or got_a != [want[vals[0]]]:
+                        wrong.append({'members': flags, 'stopped_after_'
+                                      'statements': k, 'value': bad[0] if bad
+                                      else vals[0], 'got': got_b.get(bad[0])
+                                      if bad else got_a, 'expected':
+                                      want[bad[0]] if bad else
+                                      want[vals[0]]})
+                        break
+                    if not reached:
+                        break          # A's call has fewer than k statements
+                if wrong:
+                    break
+        finally:
+            mon.set_events(TOOL, 0)
+            mon.register_callback(TOOL, mon.events.LINE, None)
+            mon.free_tool_id(TOOL)
+        if wrong:
+            run.violation('enum/concurrent-first-use', 'flag names asked of a '
+                          'class by a second thread while a first thread was '
+                          'in the middle of the class\'s very first question '
+                          'are wrong', wrong[0])
     # plain enums: name -> attribute -> value
     if run.shard == 0:
         for cls in (T.AbsoluteHand, T.RelativeHand, T.BlockFace, T.Difficulty,
